@@ -809,3 +809,49 @@ def run_staged(argv, parts, pause=1.0, timeout=60, mem_mb=2048, env=None):
         fo.seek(0)
         fe.seek(0)
         return status, fo.read(), fe.read()
+
+
+# --------------------------------------------------------------------------
+# (added for C01/C18) independent MurmurHash64A reference and partial collisions: pairs of distinct lines
+# whose 64-bit hashes differ but agree in the low (or high) 32 bits -- a tool that silently truncates the
+# hash merges them; only full 64-bit collisions are excused by the properties.
+
+def murmur64a_py(data, seed):
+    M64 = (1 << 64) - 1
+    m = 0xc6a4a7935bd1e995
+    n = len(data)
+    h = (seed ^ (n * m)) & M64
+    nb = n // 8
+    for i in range(nb):
+        k = int.from_bytes(data[8 * i:8 * i + 8], "little")
+        k = (k * m) & M64
+        k ^= k >> 47
+        k = (k * m) & M64
+        h ^= k
+        h = (h * m) & M64
+    t = data[8 * nb:]
+    if t:
+        h ^= int.from_bytes(t, "little")
+        h = (h * m) & M64
+    h ^= h >> 47
+    h = (h * m) & M64
+    h ^= h >> 47
+    return h
+
+
+def murmur_partial_collisions(count=250000, seed=1, prefix=b"ref line ", want=3):
+    """{'low32': [(a, b), ...], 'high32': [...]} among the lines prefix + decimal index"""
+    out = {"low32": [], "high32": []}
+    lo, hi = {}, {}
+    for i in range(count):
+        l = prefix + b"%d" % i
+        h = murmur64a_py(l, seed)
+        for name, tab, k in (("low32", lo, h & 0xffffffff), ("high32", hi, h >> 32)):
+            if k in tab and tab[k][1] != h:
+                if len(out[name]) < want:
+                    out[name].append((tab[k][0], l))
+            else:
+                tab[k] = (l, h)
+        if len(out["low32"]) >= want and len(out["high32"]) >= want:
+            break
+    return out
